@@ -132,7 +132,14 @@ namespace randomx {
 		static void executeBytecode(InstructionByteCode bytecode[RANDOMX_PROGRAM_MAX_SIZE], uint8_t* scratchpad, ProgramConfiguration& config, randomx_flags flags) {
 			for (int pc = 0, n = Program::getSize(flags); pc < n; ++pc) {
 				auto& ibc = bytecode[pc];
+#ifdef RANDOMX_VERIF
+				const int verifPc0 = pc;
+#endif
 				executeInstruction(ibc, pc, scratchpad, config, flags);
+#ifdef RANDOMX_VERIF
+				if (auto verifCb = randomx_verif::hooks().afterInstr)
+					verifCb(randomx_verif::hooks().ctx, &ibc, verifPc0, pc);
+#endif
 			}
 		}
 
